@@ -1652,6 +1652,7 @@ impl ObjectWrite for Action {
         match self {
             Action::Goto(dest) => {
                 let mut dict = Dictionary::new();
+                dict.insert("S", Primitive::Name("GoTo".into()));
                 dict.insert("D", dest.to_primitive(update)?);
                 Ok(Primitive::Dictionary(dict))
             }
